@@ -27,7 +27,7 @@ of `SurfModel/Kitty.lean` with that payload computation (and the outcome `panic`
 -/
 namespace SurfModel.KittyStream
 open SurfModel.Kitty
-open SurfModel.Base64 (Enc EncRes)
+open SurfModel.Base64 (Enc EncRes Buf3)
 
 /-- the `for color in img.iter() { payload_write.write_all(&color.to_rgba())?; }` loop: `SurfaceIter` (see
 `Image.iterGo`: same fuel, same two exits) with the loop body `write` of the pixel's four bytes -/
@@ -49,6 +49,122 @@ def payloadStreaming (img : Image) : EncRes (List UInt8) :=
   match streamGo img (img.shape.width * img.shape.height) 0 Enc.new with
   | .panic => .panic
   | .ok e => SurfModel.Base64.finish e
+
+/-! ### compiled form of `payloadStreaming`
+
+C14's encoder model keeps the inner `Vec` as a `List` and appends each 4-character group at its end — quadratic
+in the payload length when executed.  For execution only, `payloadStreaming` is replaced (`@[csimp]`, i.e. by a
+kernel-checked equation, `payloadStreaming_eq_fast`) by `payloadStreamingFast`: the same `write` / `finish`
+functions of the encoder model, applied pixel by pixel to an encoder whose inner writer has been emptied, the
+pieces written being collected and concatenated at the end.  This is sound because `write` and `finish` only
+ever append to the inner writer (`write_prefix`, `finish_prefix`).  Theorems are stated about
+`payloadStreaming`; nothing refers to the fast form. -/
+
+def prefixInner (p : List UInt8) : EncRes Enc → EncRes Enc
+  | .panic => .panic
+  | .ok e => .ok { e with inner := p ++ e.inner }
+
+theorem writeByte_prefix (p : List UInt8) (e : Enc) (b : UInt8) :
+    SurfModel.Base64.writeByte { e with inner := p ++ e.inner } b = prefixInner p (SurfModel.Base64.writeByte e b) := by
+  unfold SurfModel.Base64.writeByte
+  simp only
+  cases e.buffer.set e.size b with
+  | none => rfl
+  | some buffer =>
+    simp only
+    split
+    · cases SurfModel.Base64.encode3 buffer.b0 buffer.b1 buffer.b2 with
+      | none => rfl
+      | some dst => simp [prefixInner, List.append_assoc]
+    · rfl
+
+theorem write_prefix (p : List UInt8) : ∀ (bs : List UInt8) (e : Enc),
+    SurfModel.Base64.write { e with inner := p ++ e.inner } bs = prefixInner p (SurfModel.Base64.write e bs)
+  | [], e => rfl
+  | b :: rest, e => by
+    simp only [SurfModel.Base64.write, writeByte_prefix]
+    cases SurfModel.Base64.writeByte e b with
+    | panic => rfl
+    | ok e' => exact write_prefix p rest e'
+
+theorem finish_prefix (p : List UInt8) (e : Enc) :
+    SurfModel.Base64.finish { e with inner := p ++ e.inner }
+      = match SurfModel.Base64.finish e with | .panic => .panic | .ok t => .ok (p ++ t) := by
+  unfold SurfModel.Base64.finish
+  simp only
+  split
+  · rfl
+  · split
+    · rfl
+    · split <;> simp [List.append_assoc]
+    · split <;> simp [List.append_assoc]
+    · split <;> simp [List.append_assoc]
+
+def streamGoFast (img : Image) : Nat → Nat → List (List UInt8) → Buf3 → Nat → EncRes (List (List UInt8) × Buf3 × Nat)
+  | 0, _, acc, buf, size => .ok (acc, buf, size)
+  | k + 1, index, acc, buf, size =>
+    match img.shape.nth index with
+    | none => .ok (acc, buf, size)
+    | some (row, col) =>
+      match img.data[img.shape.offset row col]? with
+      | none => .ok (acc, buf, size)
+      | some c =>
+        match SurfModel.Base64.write ⟨[], buf, size⟩ c.bytes with
+        | .panic => .panic
+        | .ok e' => streamGoFast img k (index + 1) (e'.inner :: acc) e'.buffer e'.size
+
+def payloadStreamingFast (img : Image) : EncRes (List UInt8) :=
+  match streamGoFast img (img.shape.width * img.shape.height) 0 [] ⟨0, 0, 0⟩ 0 with
+  | .panic => .panic
+  | .ok (acc, buf, size) =>
+    match SurfModel.Base64.finish ⟨[], buf, size⟩ with
+    | .panic => .panic
+    | .ok t => .ok (acc.reverse.flatten ++ t)
+
+theorem streamGo_fast (img : Image) : ∀ (k index : Nat) (acc : List (List UInt8)) (buf : Buf3) (size : Nat),
+    streamGo img k index ⟨acc.reverse.flatten, buf, size⟩
+      = match streamGoFast img k index acc buf size with
+        | .panic => .panic
+        | .ok (acc', buf', size') => .ok ⟨acc'.reverse.flatten, buf', size'⟩ := by
+  intro k
+  induction k with
+  | zero => intro index acc buf size; rfl
+  | succ k ih =>
+    intro index acc buf size
+    simp only [streamGo, streamGoFast]
+    cases img.shape.nth index with
+    | none => rfl
+    | some rc =>
+      obtain ⟨row, col⟩ := rc
+      simp only []
+      cases img.data[img.shape.offset row col]? with
+      | none => rfl
+      | some c =>
+        simp only []
+        have hp := write_prefix acc.reverse.flatten c.bytes ⟨[], buf, size⟩
+        simp only [List.append_nil] at hp
+        rw [hp]
+        cases SurfModel.Base64.write ⟨[], buf, size⟩ c.bytes with
+        | panic => rfl
+        | ok e' =>
+          simp only [prefixInner]
+          have := ih (index + 1) (e'.inner :: acc) e'.buffer e'.size
+          simpa using this
+
+@[csimp] theorem payloadStreaming_eq_fast : @payloadStreaming = @payloadStreamingFast := by
+  funext img
+  unfold payloadStreaming payloadStreamingFast
+  have h := streamGo_fast img (img.shape.width * img.shape.height) 0 [] ⟨0, 0, 0⟩ 0
+  simp only [List.reverse_nil, List.flatten_nil] at h
+  rw [show Enc.new = ⟨[], ⟨0, 0, 0⟩, 0⟩ from rfl, h]
+  cases streamGoFast img (img.shape.width * img.shape.height) 0 [] ⟨0, 0, 0⟩ 0 with
+  | panic => rfl
+  | ok r =>
+    obtain ⟨acc, buf, size⟩ := r
+    simp only []
+    have hf := finish_prefix acc.reverse.flatten ⟨[], buf, size⟩
+    simp only [List.append_nil] at hf
+    rw [hf]
 
 section
 variable (hash : Image → UInt64)
